@@ -48,7 +48,7 @@ def gen_fe(ctx, n, cats):
     while len(out) < n:
         N = r.choice([0, 0, 1, 2, 3, 4, 7])
         maxT = r.choice([0, 1, 2, 3, N, N + 1, N + 2, (1 << 31) - 1, 1 << 31, (1 << 32) - 1, 1 << 32 if False else 5])
-        nn = r.choice([0, 1, 2, N, N + 1, N + 2, r.randint(0, 40), r.randint(0, 150)])
+        nn = r.choice([0, 1, 2, N, N + 1, N + 2, r.randint(0, 40), r.randint(0, 90)])
         c = {'cat': r.choice(cats), 'n': nn, 'N': N, 'maxT': maxT, 'wait': r.choice([0, 1])}
         if in_dom(c) and sum(1 for x in out if in_dom(x)) >= 24:
             c['wait'] = 1                       # every crashing case costs a process restart: keep their number bounded
@@ -79,8 +79,8 @@ def run(ctx):
                       {'finding_key': KEY, 'cmd': 'echo "%s" | build/harness/h_parfor-*' % wl})
     ctx.phase('witness')
 
-    nreal = 250 if ctx.quick else 6000
-    nmock = 350 if ctx.quick else 8000
+    nreal = 230 if ctx.quick else 6000
+    nmock = 300 if ctx.quick else 8000
     creal = gen_fe(ctx, nreal, ['ra', 'bi'])
     cmock = gen_fe(ctx, nmock, ['ra', 'bi', 'fw'])
     for c in cmock:
